@@ -252,6 +252,9 @@ func (s *sinkState) seqTokens(x ast.Expr) []string {
 		if b, ok := core.Callee(s.info, v).(*types.Builtin); ok && b.Name() == "append" {
 			return s.appendTokens(v)
 		}
+		if toks, ok := s.helperSeq(v); ok {
+			return toks
+		}
 	case *ast.SliceExpr:
 		o := s.obj(v.X)
 		if o == nil {
@@ -538,6 +541,66 @@ func (s *sinkState) helper(call *ast.CallExpr) bool {
 	}
 	s.depth--
 	return true
+}
+
+// helperSeq interprets a call of a same-package function that returns the
+// bytes it assembles: []byte parameters receive the tokens of the arguments
+// (value semantics), sinks are aliased, integers keep what they stand for.
+func (s *sinkState) helperSeq(call *ast.CallExpr) ([]string, bool) {
+	f := core.CalleeFunc(s.info, call)
+	if f == nil || f.Pkg() == nil || !strings.HasSuffix(f.Pkg().Path(), pkg) || s.depth >= 3 || call.Ellipsis.IsValid() {
+		return nil, false
+	}
+	fn := s.c.FnOf(f)
+	if fn == nil || fn.Decl.Body == nil || fn.Decl.Recv != nil {
+		return nil, false
+	}
+	if sig := f.Type().(*types.Signature); sig.Results().Len() != 1 || !isByteSlice(sig.Results().At(0).Type()) {
+		return nil, false
+	}
+	i := 0
+	for _, fl := range fn.Decl.Type.Params.List {
+		for _, nm := range fl.Names {
+			if i >= len(call.Args) {
+				return nil, false
+			}
+			po := s.info.Defs[nm]
+			arg := call.Args[i]
+			i++
+			if po == nil {
+				continue
+			}
+			at := s.info.TypeOf(arg)
+			ao := s.obj(arg)
+			switch {
+			case at != nil && isByteSlice(at):
+				if ao != nil && s.vParam[ao] {
+					s.vParam[po] = true
+				} else {
+					s.content[po] = s.seqTokens(arg)
+				}
+			case ao != nil && (s.targets(arg) != nil || s.arrLen[ao] != 0):
+				s.alias[po] = ao
+			case ao != nil && s.tParam[ao]:
+				s.tParam[po] = true
+			default:
+				if bt, ok := at.Underlying().(*types.Basic); at != nil && ok && bt.Info()&types.IsInteger != 0 {
+					s.scalar[po] = s.classify(arg)
+				} else {
+					s.noSinkUse(arg)
+				}
+			}
+		}
+	}
+	s.depth++
+	defer func() { s.depth-- }()
+	for _, st := range fn.Decl.Body.List {
+		if r, ok := s.stmt(st); ok {
+			return r, true
+		}
+	}
+	s.und("helper %s does not end in a return at the top level of its body", f.Name())
+	return nil, true
 }
 
 func (s *sinkState) stmt(st ast.Stmt) (ret []string, returned bool) {
